@@ -6,6 +6,7 @@ package main
 
 import (
 	"crypto/sha256"
+	"crypto/sha512"
 	"crypto/x509"
 	"encoding/base64"
 	"encoding/hex"
@@ -225,6 +226,21 @@ func (f Files) arts() JObj {
 	o := JObj{}
 	for _, n := range names {
 		o = append(o, JKV{n, O("sha256", sha256hex(f[n]))})
+	}
+	return o
+}
+
+// artsAlg records every file under ONE other algorithm (digest of the same content)
+func (f Files) artsAlg(alg string) JObj {
+	names := make([]string, 0, len(f))
+	for n := range f {
+		names = append(names, n)
+	}
+	sort.Strings(names)
+	o := JObj{}
+	for _, n := range names {
+		h := sha512.Sum512([]byte(f[n]))
+		o = append(o, JKV{n, O(alg, hex.EncodeToString(h[:]))})
 	}
 	return o
 }
